@@ -29,6 +29,8 @@
 (*   NoLeak           at the end of every operation every live block is    *)
 (*                    owned by exactly one array; at the end of a history  *)
 (*                    nothing is outstanding                               *)
+(*   NoAllocWhenNotNeeded  same-extent assignment, assignment through      *)
+(*                    views, swap, move, clear ... do not allocate          *)
 (*   ReachesCaller    an injected fault leaves the operation as an         *)
 (*                    exception (not std::terminate)                       *)
 (***************************************************************************)
@@ -40,9 +42,10 @@ VARIABLES l,      \* next line to consume
           B, S,   \* resource state
           seg,    \* <<history id, fault point>> of the current segment
           cur,    \* name of the operation in progress (from OpBegin)
+          nalloc, \* allocations since OpBegin
           skip    \* TRUE after a violation / terminate: ignore events until the next Reset
 
-mvars == <<l, B, S, seg, cur, skip>>
+mvars == <<l, B, S, seg, cur, nalloc, skip>>
 
 Raw == 0
 Alive == 1
@@ -52,7 +55,7 @@ NoBlocks == [x \in {} |-> 0]
 Ev == Trace[l]
 
 Complain(rule) ==
-  PrintT(ToJson([bad |-> rule, line |-> l, seg |-> seg, op |-> cur, h |-> IF "h" \in DOMAIN Ev THEN Ev.h ELSE <<>>, ev |-> [e |-> Ev.e, how |-> Ev.how, blk |-> Ev.blk, i |-> Ev.i, sblk |-> Ev.sblk, si |-> Ev.si]]))
+  PrintT(ToJson([bad |-> rule, line |-> l, seg |-> seg, op |-> cur, exc |-> IF Ev.e = "OpEnd" THEN Ev.how ELSE "-", h |-> IF "h" \in DOMAIN Ev THEN Ev.h ELSE <<>>, ev |-> [e |-> Ev.e, how |-> Ev.how, blk |-> Ev.blk, i |-> Ev.i, sblk |-> Ev.sblk, si |-> Ev.si]]))
 
 LiveBlk(b) == b \in DOMAIN B /\ ~B[b].freed
 CellIs(b, i, st) == LiveBlk(b) /\ i >= 0 /\ i < B[b].n /\ B[b].cells[i + 1] = st
@@ -102,8 +105,12 @@ HandleOK(h) ==
        /\ B[h[2]].cls = h[5]
 Owned == {Handles[k][2] : k \in {j \in 1..Len(Handles) : Handles[j][3] > 0}}
 Outstanding == {b \in DOMAIN B : ~B[b].freed /\ B[b].n > 0}
+(* operations that need no new storage must not allocate (C09) *)
+NoAllocOps == {"assign_copy_same", "assign_view_same", "assign_other_same", "assign_range_same", "swap", "assign_move", "ctor_move",
+               "self_assign", "write", "write_last", "reshape", "clear", "assign_empty", "destroy", "reextent_same", "reextent_fill_same", "reextent_move_same"}
 OpEndRule ==
   IF Ev.how \in {"unsupported"} THEN <<TRUE, "">>
+  ELSE IF cur \in NoAllocOps /\ nalloc > 0 THEN <<FALSE, "NoAllocWhenNotNeeded">>
   ELSE IF \E k \in 1..Len(Handles) : ~HandleOK(Handles[k]) THEN <<FALSE, "HandleConsistent">>
   ELSE IF \E j, k \in 1..Len(Handles) : j # k /\ Handles[j][3] > 0 /\ Handles[k][3] > 0 /\ Handles[j][2] = Handles[k][2] THEN <<FALSE, "HandleConsistent:shared_block">>
   ELSE IF ~(Outstanding \subseteq Owned) THEN <<FALSE, "NoLeak">>
@@ -112,12 +119,13 @@ OpEndRule ==
 
 Terminated == Ev.e = "OpEnd" /\ Ev.how = "terminated"
 
-MInit == l = 1 /\ B = NoBlocks /\ S = {} /\ seg = <<-1, -1>> /\ cur = "none" /\ skip = FALSE
+MInit == l = 1 /\ B = NoBlocks /\ S = {} /\ seg = <<-1, -1>> /\ cur = "none" /\ nalloc = 0 /\ skip = FALSE
 
 MStep ==
   /\ l <= Len(Trace)
   /\ l' = l + 1
   /\ cur' = IF Ev.e = "OpBegin" THEN Ev.how ELSE IF Ev.e = "Reset" THEN "none" ELSE cur
+  /\ nalloc' = IF Ev.e \in {"OpBegin", "Reset"} THEN 0 ELSE IF Ev.e = "Alloc" /\ ~skip THEN nalloc + 1 ELSE nalloc
   /\ IF Ev.e = "Reset"
      THEN B' = NoBlocks /\ S' = {} /\ seg' = <<Ev.blk, Ev.i>> /\ skip' = FALSE
      ELSE IF skip THEN UNCHANGED <<B, S, seg, skip>>
